@@ -238,6 +238,10 @@ func (self *BinaryConv) handleHttpMappings(ctx context.Context, req http.Request
 				val = v
 				break
 			}
+			// a source that HAS a value which cannot be converted is an error, not an absent source
+			if me, isMeta := err.(meta.Error); isMeta && me.Code.Behavior() == meta.ErrConvert {
+				return newError(meta.ErrConvert, fmt.Sprintf("failed to convert http value of field '%s'", f.Name()), err)
+			}
 		}
 		if !ok {
 			// no json body, check if return error
